@@ -356,13 +356,20 @@ def run_direct(spec):
             df = df.iloc[order].reset_index(drop=True)
             roles = roles[order]
             n_fit, n_hold = int((roles == "fit").sum()), int((roles == "hold").sum())
+            lab = int(rng.integers(0, 3))
+            if lab == 1:
+                # row labels as the models produce them: three frames, each labelled 0..n-1, concatenated
+                df.index = list(range(n_fit)) + list(range(n_hold)) + list(range(len(df) - n_fit - n_hold))
+            elif lab == 2:
+                df.index = [int(x) for x in rng.permutation(len(df))]
+            hold_stop = n_fit + n_hold if rng.random() < 0.5 else len(df)  # also predict for units outside the model
             fz = Featurizer(feats, fe_arg, states_for_separate_model=sep)
             before = len(out["violations"])
             try:
                 x = fz.prepare_data(df, center_features=bool(rng.random() < 0.6), scale_features=False,
                                     add_intercept=add_intercept)
                 fz.filter_to_active_features(x[:n_fit])
-                fz.generate_holdout_data(x[n_fit:n_fit + n_hold])
+                fz.generate_holdout_data(x[n_fit:hold_stop])
                 out["counters"]["direct_frames"] = out["counters"].get("direct_frames", 0) + 1
             except Exception as e:  # noqa: BLE001
                 import traceback
